@@ -52,11 +52,12 @@ const (
 	oStringNaN
 	oStringInf
 	oListThunks
+	oBadItem
 	nOutcomes
 )
 
 var outcomeNames = []string{"ok", "nil", "typed-nil", "NaN", "string-for-list", "int-for-object", "slice-for-leaf", "2^31", "unknown-enum-value",
-	"error", "value+error", "panic(error)", "panic(string)", "panic(int)", "thunk-ok", "thunk-error", "thunk-nil", "thunk-panics", "wrong-signature-func", "string-NaN", "string-Inf", "list-of-thunks"}
+	"error", "value+error", "panic(error)", "panic(string)", "panic(int)", "thunk-ok", "thunk-error", "thunk-nil", "thunk-panics", "wrong-signature-func", "string-NaN", "string-Inf", "list-of-thunks", "wrong-kind-first-item"}
 
 func explicit(o int) bool {
 	switch o {
@@ -102,7 +103,14 @@ func (h *hooks) Resolve(typeName string, f *gen.FieldDef, p graphql.ResolveParam
 			o = h.x.Dev(nOutcomes, "outcome")
 		}
 		h.decided[path] = o
-		if o != oOK {
+		if o == oBadItem {
+			// the fault sits in the first item of the list, not in the list
+			if l, ok := model.RawValue(h.g, h, f.Type, path).([]interface{}); ok && len(l) >= 2 {
+				h.troubles = append(h.troubles, trouble{path: path + "/0", what: outcomeNames[o]})
+			} else {
+				h.troubles = append(h.troubles, trouble{path: path, what: outcomeNames[o]})
+			}
+		} else if o != oOK {
 			h.troubles = append(h.troubles, trouble{path: path, what: outcomeNames[o], explicit: explicit(o)})
 		}
 	}
@@ -148,6 +156,15 @@ func (h *hooks) Resolve(typeName string, f *gen.FieldDef, p graphql.ResolveParam
 		return "NaN", nil
 	case oStringInf:
 		return "+Inf", nil
+	case oBadItem:
+		// a value of the wrong kind (a slice: unhashable, not a leaf, not an object) as the
+		// first item of a list, next to good items
+		if l, ok := raw.([]interface{}); ok && len(l) >= 2 {
+			out := append([]interface{}{}, l...)
+			out[0] = []interface{}{1, "two"}
+			return out, nil
+		}
+		return []interface{}{1, "two"}, nil
 	case oListThunks:
 		// every element of a list deferred on its own (the value itself when it is no list)
 		if l, ok := raw.([]interface{}); ok {
